@@ -79,7 +79,7 @@ CAT_NAMES = sorted(CATS)
 def strategy(tier: str, pid: str = "C20") -> st.SearchStrategy[Any]:
     del pid
     max_ops, max_comps = (40, 3) if tier == "quick" else (120, 4)
-    sub = st.tuples(st.just("sub"), st.integers(0, 3), st.sampled_from(["a", "b", "c"]), st.integers(0, 3)).map(list)
+    sub = st.tuples(st.just("sub"), st.integers(0, 3), st.sampled_from(["a", "a2", "b"]), st.integers(0, 3)).map(list)
     # third element: index of a metric that this message reports as NaN (-1: all finite)
     msg = st.tuples(st.just("msg"), st.integers(0, 3), st.sampled_from([-1, -1, -1, -1, 0, 1, 2, 3])).map(list)
     op = st.one_of(
@@ -98,7 +98,8 @@ def run_case(case: Any, pid: str) -> Verdict:
     v = Verdict()
     comps = case["comps"]
     ncomp = len(comps)
-    cid_of = [20 + i for i in range(ncomp)]
+    # ids and namespaces chosen so that concatenations can coincide ("a2" + "20" == "a" + "220"): channel names must not
+    cid_of = [20, 220, 2, 21][:ncomp]
     flags = {"mid": False, "dup": False, "mid_others": False}
     subs: dict[str, dict[str, Any]] = {}
     sent: dict[int, int] = {c: 0 for c in range(ncomp)}  # messages sent per component
